@@ -531,3 +531,36 @@ func TestRWMutexWriterPreference(t *testing.T) {
 		t.Fatalf("TryLock/TryRLock: %v", r.Keys())
 	}
 }
+
+// TestTryLockSeesHeldLock: a critical section without a visible operation inside can still be
+// observed by a TryLock. The first TryLock executed in the process turns lock releases into
+// scheduling points and the exploration starts over: "TryLock failed" is found with one preemption.
+func TestTryLockSeesHeldLock(t *testing.T) {
+	body := func(x *sched.Exec) {
+		var m vsync.Mutex
+		var wg vsync.WaitGroup
+		n := 0
+		failed := false
+		wg.Add(2)
+		sched.Go(func() { defer wg.Done(); m.Lock(); n++; m.Unlock() })
+		sched.Go(func() {
+			defer wg.Done()
+			if m.TryLock() {
+				n++
+				m.Unlock()
+			} else {
+				failed = true
+			}
+		})
+		wg.Wait()
+		if failed {
+			x.Fail("trylock|saw-held", "TryLock found the mutex held (n=%d)", n)
+		}
+	}
+	if _, r := explore(t, "trylock", 0, 0, false, body, nil); has(r, "saw-held") {
+		t.Fatal("TryLock failure with 0 preemptions?")
+	}
+	if _, r := explore(t, "trylock", 1, 0, false, body, nil); !has(r, "saw-held") {
+		t.Fatal("a TryLock that meets the held mutex was not explored")
+	}
+}
